@@ -212,7 +212,7 @@ func litValue(n ast.Node) cty.Value {
 }
 
 // compareContent checks an implementation's content against the model's, recursively.
-func compareContent(c *hx.Case, what string, got *hcl.BodyContent, want ref.Content, depth int) {
+func compareContent(c *hx.Case, what string, got *hcl.BodyContent, want ref.Content, depth int, vm string) {
 	if got == nil {
 		c.Failf("nil-content", "%s: nil content", what)
 	}
@@ -229,6 +229,16 @@ func compareContent(c *hx.Case, what string, got *hcl.BodyContent, want ref.Cont
 		c.Failf("attributes-differ", "%s: attributes {%s}, model {%s}", what, strings.Join(gn, ","), strings.Join(wn, ","))
 	}
 	for n, e := range want.Attrs {
+		if vm == "mixed" {
+			break
+		}
+		if vm == "unknown" {
+			gv, diags := got.Attributes[n].Expr.Value(nil)
+			if diags.HasErrors() || gv.IsKnown() {
+				c.Failf("attribute-value", "%s.%s: value %#v (%s) inside a block generated from an unknown for_each, expected an unknown value", what, n, gv, diagStr(diags))
+			}
+			continue
+		}
 		wv := litValue(e)
 		if wv == cty.NilVal {
 			continue
@@ -266,7 +276,11 @@ func compareContent(c *hx.Case, what string, got *hcl.BodyContent, want ref.Cont
 				if idiags.HasErrors() != wc.Err {
 					c.Failf("nested-error-flag", "%s/%s#%d: nested exhaustive processing error=%v (%s), model %v", what, typ, i, idiags.HasErrors(), diagStr(idiags), wc.Err)
 				}
-				compareContent(c, fmt.Sprintf("%s/%s#%d", what, typ, i), ic, wc, depth+1)
+				nvm := vm
+				if wl[i].Unknown {
+					nvm = "unknown"
+				}
+				compareContent(c, fmt.Sprintf("%s/%s#%d", what, typ, i), ic, wc, depth+1, nvm)
 			}
 		}
 	}
@@ -276,6 +290,16 @@ type implBody struct {
 	name string
 	body hcl.Body
 	json bool
+	// dyn: the body comes out of dynblock.Expand (the known findings about its remaining
+	// bodies apply)
+	dyn bool
+	// vm says what attribute values are expected to be: "" = the literal written,
+	// "unknown" = unknown values (the body stands for a block generated from an unknown
+	// for_each), "mixed" = not compared at this level (decided per nested block)
+	vm string
+	// rawHasBlocks: whether the text behind the (expanded) body tree has blocks, `dynamic`
+	// blocks included, at that level (for the known finding about JustAttributes)
+	rawHasBlocks func(tree *ast.Body) bool
 }
 
 // realise builds the implementations of a logical body.
@@ -288,7 +312,7 @@ func realise(c *hx.Case, tree *ast.Body) []implBody {
 	if diags.HasErrors() {
 		c.Failf("parse-error", "native rendering does not parse: %s", diagStr(diags))
 	}
-	out = append(out, implBody{"native", nf.Body, false})
+	out = append(out, implBody{name: "native", body: nf.Body})
 	js, jfeat, ok := render.JSONFile(tree, rchooser{t}, true, false)
 	if ok {
 		c.Set("json", js)
@@ -299,7 +323,7 @@ func realise(c *hx.Case, tree *ast.Body) []implBody {
 		if diags.HasErrors() {
 			c.Failf("json-parse-error", "JSON rendering does not parse: %s", diagStr(diags))
 		}
-		out = append(out, implBody{"json", jf.Body, true})
+		out = append(out, implBody{name: "json", body: jf.Body, json: true})
 	}
 	// merged: contiguous partition of the items into 2..3 files, each native or JSON
 	k := rapid.IntRange(2, 3).Draw(t, "nfiles")
@@ -336,13 +360,164 @@ func realise(c *hx.Case, tree *ast.Body) []implBody {
 		desc = append(desc, ps)
 	}
 	c.Set("merged_parts", desc)
-	out = append(out, implBody{"merged", hcl.MergeBodies(bodies), mixed})
+	out = append(out, implBody{name: "merged", body: hcl.MergeBodies(bodies), json: mixed})
 	if mixed {
 		c.Class("merged_mixed_syntax")
 	}
 	// dynblock expansion of a body without dynamic blocks is the identity on structure
-	out = append(out, implBody{"dynblock", dynblock.Expand(nf.Body, &hcl.EvalContext{}), false})
+	out = append(out, implBody{name: "dynblock", body: dynblock.Expand(nf.Body, &hcl.EvalContext{}), dyn: true})
 	return out
+}
+
+// lawsOn judges one implementation of the logical body `tree` against the reference body
+// model: L1 exhaustive, L2 partial + complement, L3 chain over `parts`, L4 reuse.
+func lawsOn(c *hx.Case, im implBody, tree *ast.Body, S ref.Schema, parts []ref.Schema) {
+	t := c.T
+	mExh := ref.NewView(tree, false).Exhaustive(S)
+	mPart, mRest := ref.NewView(tree, false).Partial(S)
+	leftA, leftB := mRest.Leftovers()
+	if mExh.LabelMismatch && im.json {
+		// JSON distinguishes label levels from body levels only through the schema: a
+		// label-count mismatch has no JSON counterpart (see DESIGN C03/C04)
+		c.Class("json_label_mismatch_not_expressible")
+		return
+	}
+	// L1 exhaustive
+	var content *hcl.BodyContent
+	var diags hcl.Diagnostics
+	c.Guard(im.name+" Content", func() { content, diags = im.body.Content(toHCLSchema(S)) })
+	if diags.HasErrors() != mExh.Err {
+		c.Failf("L1-error-flag", "%s: Content error=%v (%s), model %v", im.name, diags.HasErrors(), diagStr(diags), mExh.Err)
+	}
+	compareContent(c, im.name+" Content", content, mExh, 0, im.vm)
+	// L2 partial + complement
+	var rest hcl.Body
+	c.Guard(im.name+" PartialContent", func() { content, rest, diags = im.body.PartialContent(toHCLSchema(S)) })
+	if diags.HasErrors() != mPart.Err {
+		c.Failf("L2-error-flag", "%s: PartialContent error=%v (%s), model %v", im.name, diags.HasErrors(), diagStr(diags), mPart.Err)
+	}
+	compareContent(c, im.name+" PartialContent", content, mPart, 0, im.vm)
+	if rest == nil {
+		c.Failf("nil-remain", "%s: PartialContent returned a nil remaining body", im.name)
+	}
+	// the complement schema: exactly the leftovers, with their actual label counts
+	var comp ref.Schema
+	for _, a := range leftA {
+		comp.Attrs = append(comp.Attrs, ref.AttrS{Name: a})
+	}
+	seenB := map[string]bool{}
+	for _, bl := range tree.Blocks() {
+		for _, lb := range leftB {
+			if lb == bl.Type && !seenB[bl.Type] {
+				seenB[bl.Type] = true
+				comp.Blocks = append(comp.Blocks, ref.BlockS{Type: bl.Type, NLabels: len(bl.Labels)})
+			}
+		}
+	}
+	mComp := mRest.Exhaustive(comp)
+	var rc *hcl.BodyContent
+	c.Guard(im.name+" remain.Content", func() { rc, diags = rest.Content(toHCLSchema(comp)) })
+	if diags.HasErrors() != mComp.Err {
+		if im.dyn && mPart.LabelMismatch && diags.HasErrors() && c.Known("dynblock-remain-repeats-label-errors") {
+			c.Class("excluded_known_dynblock_repeats_label_errors")
+			return
+		}
+		c.Failf("L2-remain-error-flag", "%s: remaining body with the complement schema error=%v (%s), model %v", im.name, diags.HasErrors(), diagStr(diags), mComp.Err)
+	}
+	compareContent(c, im.name+" remain.Content", rc, mComp, 0, im.vm)
+	// the remaining body processed with an empty schema complains iff there are leftovers
+	_, ediags := rest.Content(&hcl.BodySchema{})
+	if ediags.HasErrors() != (len(leftA)+len(leftB) > 0) {
+		c.Failf("L2-leftovers", "%s: remaining body with the empty schema error=%v, model leftovers attrs=%v blocks=%v", im.name, ediags.HasErrors(), leftA, leftB)
+	}
+	// JustAttributes on the remainder when no block is left over
+	// (json/spec.md: in dynamic-attributes mode a JSON body must be a single object, so
+	// array-form JSON bodies legitimately fail here; the clause is judged on the others)
+	if len(leftB) == 0 && !im.json {
+		var ja hcl.Attributes
+		c.Guard(im.name+" remain.JustAttributes", func() { ja, diags = rest.JustAttributes() })
+		var names []string
+		for n := range ja {
+			names = append(names, n)
+		}
+		sort.Strings(names)
+		if strings.Join(names, ",") != strings.Join(leftA, ",") {
+			c.Failf("L2-justattributes", "%s: remain.JustAttributes gives {%s}, model {%s}", im.name, strings.Join(names, ","), strings.Join(leftA, ","))
+		}
+		if diags.HasErrors() {
+			if (len(tree.Blocks()) > 0 || (im.rawHasBlocks != nil && im.rawHasBlocks(tree))) && im.dyn && c.Known("dynblock-justattributes-reports-consumed-blocks") {
+				c.Class("excluded_known_dynblock_justattributes_consumed_blocks")
+			} else {
+				c.Failf("L2-justattributes-error", "%s: remain.JustAttributes reports %s although only attributes are left", im.name, diagStr(diags))
+			}
+		}
+	}
+	// L3 chain
+	cur := im.body
+	view := ref.NewView(tree, false)
+	acc := ref.Content{Attrs: map[string]ast.Node{}}
+	chainErr, mChainErr := false, false
+	gotAttrs := map[string]*hcl.Attribute{}
+	var gotBlocks hcl.Blocks
+	for i, p := range parts {
+		var pc *hcl.BodyContent
+		var pd hcl.Diagnostics
+		var mc ref.Content
+		if i < len(parts)-1 {
+			var next hcl.Body
+			c.Guard(im.name+" chain PartialContent", func() { pc, next, pd = cur.PartialContent(toHCLSchema(p)) })
+			cur = next
+			mc, view = view.Partial(p)
+		} else {
+			c.Guard(im.name+" chain Content", func() { pc, pd = cur.Content(toHCLSchema(p)) })
+			mc = view.Exhaustive(p)
+		}
+		chainErr = chainErr || pd.HasErrors()
+		mChainErr = mChainErr || mc.Err
+		for n, a := range pc.Attributes {
+			gotAttrs[n] = a
+		}
+		gotBlocks = append(gotBlocks, pc.Blocks...)
+		for n, e := range mc.Attrs {
+			acc.Attrs[n] = e
+		}
+		acc.Blocks = append(acc.Blocks, mc.Blocks...)
+	}
+	if chainErr != mExh.Err || mChainErr != mExh.Err {
+		c.Failf("L3-error-flag", "%s: chained processing error=%v (model chain %v), one-step union schema error=%v", im.name, chainErr, mChainErr, mExh.Err)
+	}
+	compareContent(c, im.name+" chain", &hcl.BodyContent{Attributes: gotAttrs, Blocks: gotBlocks}, mExh, 0, im.vm)
+	_ = acc
+	// L4 reuse: processing a body (or a remaining body) does not modify it - the same
+	// remaining body object answers a second, different or repeated request as the
+	// model (which is immutable) says
+	if len(parts) >= 2 {
+		var r1 hcl.Body
+		c.Guard(im.name+" reuse PartialContent", func() { _, r1, _ = im.body.PartialContent(toHCLSchema(parts[0])) })
+		_, v1 := ref.NewView(tree, false).Partial(parts[0])
+		order := []int{1, 1}
+		if len(parts) >= 3 {
+			order = []int{rapid.IntRange(1, len(parts)-1).Draw(t, "reuse_a"), rapid.IntRange(1, len(parts)-1).Draw(t, "reuse_b"), rapid.IntRange(1, len(parts)-1).Draw(t, "reuse_c")}
+		}
+		for step, pi := range order {
+			var pc *hcl.BodyContent
+			var pd hcl.Diagnostics
+			c.Guard(im.name+" reuse PartialContent", func() { pc, _, pd = r1.PartialContent(toHCLSchema(parts[pi])) })
+			mc, _ := v1.Partial(parts[pi])
+			if pd.HasErrors() != mc.Err {
+				c.Failf("L4-reuse-error-flag", "%s: request %d on the same remaining body (schema part %d): error=%v (%s), model %v", im.name, step, pi, pd.HasErrors(), diagStr(pd), mc.Err)
+			}
+			compareContent(c, fmt.Sprintf("%s reuse step %d", im.name, step), pc, mc, 0, im.vm)
+		}
+		// and the original body still answers the exhaustive request as before
+		var again *hcl.BodyContent
+		var adiags hcl.Diagnostics
+		c.Guard(im.name+" Content (again)", func() { again, adiags = im.body.Content(toHCLSchema(S)) })
+		if adiags.HasErrors() != mExh.Err {
+			c.Failf("L4-reuse-error-flag", "%s: Content on the original body after other requests: error=%v (%s), model %v", im.name, adiags.HasErrors(), diagStr(adiags), mExh.Err)
+		}
+		compareContent(c, im.name+" Content (again)", again, mExh, 0, im.vm)
+	}
 }
 
 func TestC04_Laws(t *testing.T) {
@@ -368,148 +543,7 @@ func TestC04_Laws(t *testing.T) {
 			mPart, mRest := ref.NewView(tree, false).Partial(S)
 			leftA, leftB := mRest.Leftovers()
 			for _, im := range impls {
-				if mExh.LabelMismatch && im.json {
-					// JSON distinguishes label levels from body levels only through the schema: a
-					// label-count mismatch has no JSON counterpart (see DESIGN C03/C04)
-					c.Class("json_label_mismatch_not_expressible")
-					continue
-				}
-				// L1 exhaustive
-				var content *hcl.BodyContent
-				var diags hcl.Diagnostics
-				c.Guard(im.name+" Content", func() { content, diags = im.body.Content(toHCLSchema(S)) })
-				if diags.HasErrors() != mExh.Err {
-					c.Failf("L1-error-flag", "%s: Content error=%v (%s), model %v", im.name, diags.HasErrors(), diagStr(diags), mExh.Err)
-				}
-				compareContent(c, im.name+" Content", content, mExh, 0)
-				// L2 partial + complement
-				var rest hcl.Body
-				c.Guard(im.name+" PartialContent", func() { content, rest, diags = im.body.PartialContent(toHCLSchema(S)) })
-				if diags.HasErrors() != mPart.Err {
-					c.Failf("L2-error-flag", "%s: PartialContent error=%v (%s), model %v", im.name, diags.HasErrors(), diagStr(diags), mPart.Err)
-				}
-				compareContent(c, im.name+" PartialContent", content, mPart, 0)
-				if rest == nil {
-					c.Failf("nil-remain", "%s: PartialContent returned a nil remaining body", im.name)
-				}
-				// the complement schema: exactly the leftovers, with their actual label counts
-				var comp ref.Schema
-				for _, a := range leftA {
-					comp.Attrs = append(comp.Attrs, ref.AttrS{Name: a})
-				}
-				seenB := map[string]bool{}
-				for _, bl := range tree.Blocks() {
-					for _, lb := range leftB {
-						if lb == bl.Type && !seenB[bl.Type] {
-							seenB[bl.Type] = true
-							comp.Blocks = append(comp.Blocks, ref.BlockS{Type: bl.Type, NLabels: len(bl.Labels)})
-						}
-					}
-				}
-				mComp := mRest.Exhaustive(comp)
-				var rc *hcl.BodyContent
-				c.Guard(im.name+" remain.Content", func() { rc, diags = rest.Content(toHCLSchema(comp)) })
-				if diags.HasErrors() != mComp.Err {
-					if im.name == "dynblock" && mPart.LabelMismatch && diags.HasErrors() && c.Known("dynblock-remain-repeats-label-errors") {
-						c.Class("excluded_known_dynblock_repeats_label_errors")
-						continue
-					}
-					c.Failf("L2-remain-error-flag", "%s: remaining body with the complement schema error=%v (%s), model %v", im.name, diags.HasErrors(), diagStr(diags), mComp.Err)
-				}
-				compareContent(c, im.name+" remain.Content", rc, mComp, 0)
-				// the remaining body processed with an empty schema complains iff there are leftovers
-				_, ediags := rest.Content(&hcl.BodySchema{})
-				if ediags.HasErrors() != (len(leftA)+len(leftB) > 0) {
-					c.Failf("L2-leftovers", "%s: remaining body with the empty schema error=%v, model leftovers attrs=%v blocks=%v", im.name, ediags.HasErrors(), leftA, leftB)
-				}
-				// JustAttributes on the remainder when no block is left over
-				// (json/spec.md: in dynamic-attributes mode a JSON body must be a single object, so
-				// array-form JSON bodies legitimately fail here; the clause is judged on the others)
-				if len(leftB) == 0 && !im.json {
-					var ja hcl.Attributes
-					c.Guard(im.name+" remain.JustAttributes", func() { ja, diags = rest.JustAttributes() })
-					var names []string
-					for n := range ja {
-						names = append(names, n)
-					}
-					sort.Strings(names)
-					if strings.Join(names, ",") != strings.Join(leftA, ",") {
-						c.Failf("L2-justattributes", "%s: remain.JustAttributes gives {%s}, model {%s}", im.name, strings.Join(names, ","), strings.Join(leftA, ","))
-					}
-					if diags.HasErrors() {
-						if len(tree.Blocks()) > 0 && im.name == "dynblock" && c.Known("dynblock-justattributes-reports-consumed-blocks") {
-							c.Class("excluded_known_dynblock_justattributes_consumed_blocks")
-						} else {
-							c.Failf("L2-justattributes-error", "%s: remain.JustAttributes reports %s although only attributes are left", im.name, diagStr(diags))
-						}
-					}
-				}
-				// L3 chain
-				cur := im.body
-				view := ref.NewView(tree, false)
-				acc := ref.Content{Attrs: map[string]ast.Node{}}
-				chainErr, mChainErr := false, false
-				gotAttrs := map[string]*hcl.Attribute{}
-				var gotBlocks hcl.Blocks
-				for i, p := range parts {
-					var pc *hcl.BodyContent
-					var pd hcl.Diagnostics
-					var mc ref.Content
-					if i < len(parts)-1 {
-						var next hcl.Body
-						c.Guard(im.name+" chain PartialContent", func() { pc, next, pd = cur.PartialContent(toHCLSchema(p)) })
-						cur = next
-						mc, view = view.Partial(p)
-					} else {
-						c.Guard(im.name+" chain Content", func() { pc, pd = cur.Content(toHCLSchema(p)) })
-						mc = view.Exhaustive(p)
-					}
-					chainErr = chainErr || pd.HasErrors()
-					mChainErr = mChainErr || mc.Err
-					for n, a := range pc.Attributes {
-						gotAttrs[n] = a
-					}
-					gotBlocks = append(gotBlocks, pc.Blocks...)
-					for n, e := range mc.Attrs {
-						acc.Attrs[n] = e
-					}
-					acc.Blocks = append(acc.Blocks, mc.Blocks...)
-				}
-				if chainErr != mExh.Err || mChainErr != mExh.Err {
-					c.Failf("L3-error-flag", "%s: chained processing error=%v (model chain %v), one-step union schema error=%v", im.name, chainErr, mChainErr, mExh.Err)
-				}
-				compareContent(c, im.name+" chain", &hcl.BodyContent{Attributes: gotAttrs, Blocks: gotBlocks}, mExh, 0)
-				_ = acc
-				// L4 reuse: processing a body (or a remaining body) does not modify it - the same
-				// remaining body object answers a second, different or repeated request as the
-				// model (which is immutable) says
-				if len(parts) >= 2 {
-					var r1 hcl.Body
-					c.Guard(im.name+" reuse PartialContent", func() { _, r1, _ = im.body.PartialContent(toHCLSchema(parts[0])) })
-					_, v1 := ref.NewView(tree, false).Partial(parts[0])
-					order := []int{1, 1}
-					if len(parts) >= 3 {
-						order = []int{rapid.IntRange(1, len(parts)-1).Draw(t, "reuse_a"), rapid.IntRange(1, len(parts)-1).Draw(t, "reuse_b"), rapid.IntRange(1, len(parts)-1).Draw(t, "reuse_c")}
-					}
-					for step, pi := range order {
-						var pc *hcl.BodyContent
-						var pd hcl.Diagnostics
-						c.Guard(im.name+" reuse PartialContent", func() { pc, _, pd = r1.PartialContent(toHCLSchema(parts[pi])) })
-						mc, _ := v1.Partial(parts[pi])
-						if pd.HasErrors() != mc.Err {
-							c.Failf("L4-reuse-error-flag", "%s: request %d on the same remaining body (schema part %d): error=%v (%s), model %v", im.name, step, pi, pd.HasErrors(), diagStr(pd), mc.Err)
-						}
-						compareContent(c, fmt.Sprintf("%s reuse step %d", im.name, step), pc, mc, 0)
-					}
-					// and the original body still answers the exhaustive request as before
-					var again *hcl.BodyContent
-					var adiags hcl.Diagnostics
-					c.Guard(im.name+" Content (again)", func() { again, adiags = im.body.Content(toHCLSchema(S)) })
-					if adiags.HasErrors() != mExh.Err {
-						c.Failf("L4-reuse-error-flag", "%s: Content on the original body after other requests: error=%v (%s), model %v", im.name, adiags.HasErrors(), diagStr(adiags), mExh.Err)
-					}
-					compareContent(c, im.name+" Content (again)", again, mExh, 0)
-				}
+				lawsOn(c, im, tree, S, parts)
 			}
 			hasMatch := len(mExh.Attrs)+len(mExh.Blocks) > 0
 			hasLeft := len(leftA)+len(leftB) > 0
